@@ -443,13 +443,50 @@ def p4_p5_register_or_return(C, rep, rid):
         rep.ob(rid, ok, f, "add-listener answers or stores the sender on every path", where="", how=why, detail="" if ok else "add-listener may drop the sender: %s" % why)
 
 
+def p4b_answer_only_via_lifecycle(C, rep, rid):
+    rep.rule(rid, "once the handler has taken the payments lock (HTLC classified as trampoline), its only exit is the awaited oneshot receiver: the response always comes from the lifecycle, which alone knows whether a payment is in flight")
+    F, X, A = C.F, C.X, C.A
+    H = handler(C)
+    b = H.body
+    if not H.lock:
+        rep.anchor(rid, "table lock acquisition", 0, fn=H.fn)
+        return
+    rx = [c for c in polls_in(b, b.reachable) if any(x[0] == "field" and x[1] == "1" and x[4][0] == "call" and x[4][1] == "tokio::sync::oneshot::channel" for x in walk(awaited_future_of_poll(b, X, c)))]
+    if not rep.anchor(rid, "await of the oneshot receiver", len(rx), 1, fn=H.fn):
+        return
+    aw = lib.await_of_call(b, H.lock[0])
+    start = aw["ready"] if aw and aw["ready"] is not None else H.lock[0].bb
+    cut = {r.bb for r in rx}
+    bad = [r for r in b.returns() if r in b.reach([start], removed_nodes=cut)]
+    # name the offending exit: the value assigned to the return place on that path
+    where = ""
+    if bad:
+        r0 = b.reach([start], removed_nodes=cut)
+        for bi in sorted(r0):
+            for st in b.blocks[bi]["s"]:
+                if st["k"] == "assign" and st["lhs"]["l"] == 0 and not st["lhs"]["p"]:
+                    where = loc(st["sp"])
+            t = b.term(bi)
+            if t["k"] == "call" and t["dest"]["l"] == 0 and not t["dest"]["p"] and not is_noise_span(t["sp"]):
+                where = loc(t["sp"])
+    rep.ob(rid, not bad, H.fn, "no handler exit between the lock and the receiver await", where=where or H.lock[0].loc, how="every Return reachable from the lock passes the receiver await",
+           detail="" if not bad else "the handler answers a classified trampoline HTLC directly at %s, without registering it with the payment lifecycle: after a restart (empty table, stored Pending/Succeeded) or while a payment is in flight it would be failed although the outgoing payment can still succeed" % (where or "?"))
+    # and the returned value on the main path is the received response
+    r = strip(X.local(b, 0))
+    for a in alts(r):
+        site = a[3] if a[0] == "call" else (a[4] if a[0] == "agg" else None)
+        if site is not None and site[1] in b.reach([start]):
+            ok = any(x[0] == "await" for x in walk(a)) and any(x[0] == "call" and x[1] == "tokio::sync::oneshot::channel" for x in walk(a))
+            rep.ob(rid, ok, H.fn, "response after the lock is the lifecycle's", where=site[2], how=show(a)[:70], detail="" if ok else "after the lock the handler returns %s" % show(a)[:100])
+
+
 def latch_info(C):
     """for each mpsc send on a PaymentState channel field: guards, latch flag, set-before-send"""
     F, X, A = C.F, C.X, C.A
     out = []
     for b in F.code_bodies():
         for c in b.calls:
-            if c.name != "tokio::sync::mpsc::Sender::send" or c.noise:
+            if c.name not in ("tokio::sync::mpsc::Sender::send", "tokio::sync::mpsc::Sender::try_send", "tokio::sync::mpsc::Sender::blocking_send", "tokio::sync::mpsc::Sender::send_timeout") or c.noise:
                 continue
             e = strip(X.operand(b, c.args[0]))
             if not (e[0] == "field" and canon(e[2]) == PSTATE):
@@ -614,6 +651,11 @@ def u3_reject_before_add(C, rep, rid, which=("conflict", "expiry", "total")):
     for i in fr:
         flags = [k for k, v in i["sets"].items() if v is True and i["guards"].get(k) is False]
         rep.ob(rid, bool(flags), F.root_of(i["body"]), "fail request sets its flag before sending", where=i["call"].loc, how=str(flags), detail="" if flags else "fail requester does not record the request")
+        for fl in flags:
+            ws, _bs = field_writes(F, PSTATE, fl)
+            resets = [w for w in ws if const_bool_of(w[0], w[2]) is not True]
+            rep.ob(rid, not resets, F.root_of(i["body"]), "the fail flag is never cleared", where=loc(resets[0][2]["sp"]) if resets else i["call"].loc, how="only `= true` writes",
+                   detail="" if not resets else "flag %s can be cleared again at %s: a rejected set can become payable" % (fl, loc(resets[0][2]["sp"])))
         for r in rd:
             ok = any(r["guards"].get(fl) is False for fl in flags)
             rep.ob(rid, ok, F.root_of(r["body"]), "readiness requires no fail request", where=r["call"].loc, how="ready send guarded by !%s" % flags,
@@ -712,6 +754,7 @@ def r3_sum_discipline(C, rep, rid):
     for (b, bi, s) in writes:
         fn = F.root_of(b)
         e = strip(X.rvalue(b, s["rv"], (b.cdef, bi, loc(s["sp"])), 0))
+        e = mm.expand_params(F, X, e, depth=2) if any(y[0] == "param" and y[3] != "self" and "{closure" not in y[1] for y in walk(e)) else e
         ok = False
         how = show(e)[:100]
         x = e
@@ -764,6 +807,7 @@ def m_min_expiry(C, rep, rid):
     for (b, bi, s) in writes:
         fn = F.root_of(b)
         e = strip(X.rvalue(b, s["rv"], (b.cdef, bi, loc(s["sp"])), 0))
+        e = mm.expand_params(F, X, e, depth=2) if any(y[0] == "param" and y[3] != "self" and "{closure" not in y[1] for y in walk(e)) else e
         ok = False
         if e[0] == "call" and e[1] in ("std::cmp::min", "std::cmp::Ord::min") and len(e[2]) == 2:
             a0, a1 = e[2]
